@@ -3,7 +3,10 @@
    result - an item of some input, or None - within B rounds, B the longest script. *)
 From Coq Require Import List Arith Bool Lia.
 Import ListNotations.
-Require Import ScanFull InstsFull ObligMZ C08Merge.
+Require Import ScanFull InstsFull ObligMZ C08Merge Counting.
+
+Lemma out_eq_none (o: out) : {o = ONone} + {o <> ONone}.
+Proof. destruct o; [right|right|right|right|right|left]; try discriminate; reflexivity. Qed.
 
 Section MergeLive.
   Variable scs : list (list step).
@@ -148,6 +151,135 @@ Section MergeLive.
       + unfold N in Hj. rewrite Hmn in Hj. exact Hj.
       + unfold aw in Ha. rewrite Hops, E in Ha. exact Ha.
     - intros s HQ HT. apply TSm_some; auto.
+  Qed.
+  (* ---- every item of every input comes out and the merged stream ends ---- *)
+  (* items still scripted + outputs returned is invariant along any history; N0: a lower bound on the outputs; B: a bound on every script length *)
+  Definition Rm (C N0 B: nat) (s: mst) (sc: list (list step)) (rs: list out) : Prop :=
+    m_Q s /\ items_total sc + nsome rs = C /\ N0 <= nsome rs /\ forall k, length (nth k sc []) <= B.
+  Section MDrain.
+    Variables C N0 B : nat.
+    Lemma Rm_pop s sc rs i stp sc' : (stp, sc') = popped_of mst (fun _ i => i) s sc i -> Rm C N0 B s sc rs ->
+      items_total sc' + (match answer stp with AItem _ => 1 | _ => 0 end) = items_total sc /\ forall k, length (nth k sc' []) <= B.
+    Proof.
+      intros E (_ & _ & _ & Hb). change (popped_of mst (fun _ i => i) s sc i) with (pop_at sc i) in E.
+      pose proof (pop_at_items sc i) as H1. pose proof (pop_at_len sc i B Hb) as H2. rewrite <- E in H1, H2. cbn [fst snd] in H1, H2. split; assumption.
+    Qed.
+    Lemma Rm_cont s sc rs i stp sc' s' e : m_awaited s i = true -> i < m_n s -> (stp, sc') = popped_of mst (fun _ i => i) s sc i ->
+      Rm C N0 B s sc rs -> m_handle s i (answer stp) = (s', Cont, e) -> Rm C N0 B s' sc' rs.
+    Proof.
+      intros Ha Hi E HR Eh. destruct (Rm_pop s sc rs i stp sc' E HR) as [Hit Hl]. destruct HR as (HQ & Hc & Hlo & Hb).
+      pose proof (M9 s i (answer stp) HQ Ha Hi) as HQ'. rewrite Eh in HQ'. cbn [fst] in HQ'.
+      pose proof (m_handle_cases s i (answer stp)) as X. cbn zeta in X.
+      split; [exact HQ'|]. split; [|split; [exact Hlo|exact Hl]].
+      destruct (answer stp) as [|r|v| |]; try lia. rewrite X in Eh. discriminate.
+    Qed.
+    Lemma Rm_stop s sc rs i stp sc' s' r o e : m_awaited s i = true -> i < m_n s -> (stp, sc') = popped_of mst (fun _ i => i) s sc i ->
+      Rm C N0 B s sc rs -> m_handle s i (answer stp) = (s', Stop r o, e) -> Rm C N0 B s' sc' (rs ++ [o]).
+    Proof.
+      intros Ha Hi E HR Eh. destruct (Rm_pop s sc rs i stp sc' E HR) as [Hit Hl]. destruct HR as (HQ & Hc & Hlo & Hb).
+      pose proof (M9 s i (answer stp) HQ Ha Hi) as HQ'. rewrite Eh in HQ'. cbn [fst] in HQ'.
+      pose proof (m_handle_cases s i (answer stp)) as X. cbn zeta in X.
+      split; [exact HQ'|]. rewrite nsome_app. split; [|split; [lia|exact Hl]].
+      destruct (answer stp) as [|rr|v| |]; rewrite X in Eh; try discriminate.
+      - inversion Eh; subst. cbn. lia.
+      - destruct (_ =? _); inversion Eh; subst. cbn. lia.
+    Qed.
+    Lemma Rm_abort s sc rs i stp sc' s' e : m_awaited s i = true -> i < m_n s -> (stp, sc') = popped_of mst (fun _ i => i) s sc i ->
+      Rm C N0 B s sc rs -> m_handle s i (answer stp) = (s', Abort, e) -> Rm C N0 B s sc' rs.
+    Proof.
+      intros Ha Hi E HR Eh. destruct (Rm_pop s sc rs i stp sc' E HR) as [Hit Hl]. destruct HR as (HQ & Hc & Hlo & Hb).
+      pose proof (m_handle_cases s i (answer stp)) as X. cbn zeta in X.
+      split; [exact HQ|]. split; [|split; [exact Hlo|exact Hl]].
+      destruct (answer stp) as [|rr|v| |]; try lia. rewrite X in Eh. discriminate.
+    Qed.
+    Lemma Rm_order s is s1 sc rs : m_order s = Some (is, s1) -> Rm C N0 B s sc rs -> Rm C N0 B s1 sc rs.
+    Proof. intros E (HQ & H). split; [eapply M14; eauto|exact H]. Qed.
+    Lemma Rm_none s sc rs : Rm C N0 B s sc rs -> Rm C N0 B s sc (rs ++ [ONone]).
+    Proof. intros (HQ & Hc & Hlo & Hb). split; [exact HQ|]. rewrite nsome_app. cbn. split; [lia|]. split; [lia|exact Hb]. Qed.
+    Lemma Rm_finish s sc rs : Rm C N0 B s sc rs -> match snd (m_finish s) with Some o => Rm C N0 B (fst (m_finish s)) sc (rs ++ [o]) | None => Rm C N0 B (fst (m_finish s)) sc rs end.
+    Proof. intros H. exact H. Qed.
+    Lemma Rm_pre s sc rs o : Rm C N0 B s sc rs -> m_pre_exit s = Some o -> Rm C N0 B s sc (rs ++ [o]).
+    Proof. intros H E. unfold m_pre_exit in E. destruct (m_n s =? 0); inversion E; subst. apply Rm_none, H. Qed.
+    Lemma Rm_run ops : forall w, Rm C N0 B (cs _ w) (scripts _ w) (results (tr _ w)) ->
+      Rm C N0 B (cs _ (mrun w ops)) (scripts _ (mrun w ops)) (results (tr _ (mrun w ops))).
+    Proof.
+      apply (RW_run mst m_n m_awaited (fun _ i => i) m_handle true true m_order m_pre_exit (fun _ => false) m_finish (fun s => s)
+             (fun s => drop_all_children (m_n s)) m_final m_Q M1 M8 M9 M10 M12 mmut (Rm C N0 B)
+             Rm_cont Rm_stop Rm_abort Rm_order Rm_finish Rm_pre (fun s sc rs H => proj1 H)
+             (C08_hnores) (C08_dnores) (fun w _ _ _ H => H) ops).
+    Qed.
+  End MDrain.
+
+  Lemma results_In t o : In o (results t) -> In (EEndR o) t.
+  Proof. induction t as [|e t IH]; cbn; [auto|]. destruct e; cbn; try (intros H; right; apply IH, H). intros [<-|H]; [left; reflexivity|right; apply IH, H]. Qed.
+  Lemma mrun_app w a b : mrun (mrun w a) b = mrun w (a ++ b).
+  Proof. unfold run_ops. rewrite fold_left_app. reflexivity. Qed.
+
+  (* after any history, while it has not been dropped: within (k + 1) * B rounds of the wake-driven executor the merged stream has returned None
+     - k the number of items still scripted, B any bound on the remaining script lengths - and the world reached is a history of the model, so that
+     C08_merge_exactly_once applies to it: every item of every input has been yielded exactly once, in its input's order *)
+  Theorem merge_ends B : 1 <= B -> forall k ops, let w := mrun w0 ops in
+    finished _ w = false -> dropped _ w = false -> items_total (scripts _ w) <= k -> (forall j, length (nth j (scripts _ w) []) <= B) ->
+    exists R, R <= (k + 1) * B /\ let w' := mrounds R w in
+      dropped _ w' = false /\ In (EEndR ONone) (tr _ w') /\ exists ops', w' = mrun w0 ops'.
+  Proof.
+    intros HB1. induction k as [|k IH]; intros ops w Hf Hd Hk HB;
+      destruct (merge_R_run ops) as (pre & Hl & Hmn & _ & _ & _ & _ & _ & Hcn & _ & Hall); fold w in Hmn, Hcn, Hall;
+      (destruct (Nat.eq_dec (m_complete (cs _ w)) n) as [Ec|Hnc];
+        [exists 0; split; [lia|]; cbn [rounds]; split; [exact Hd|]; split; [apply results_In, Hall; [exact Ec|exact Hn]|exists ops; reflexivity]|]);
+      (assert (Hc : m_complete (cs _ w) < n) by (pose proof (count_none_le (m_pst (cs _ w))) as X; unfold m_n in Hmn; lia));
+      destruct (merge_next_result ops B Hf Hd Hc HB HB1) as (r & Hr & Hd1 & _ & Hfin & u & o & Hu); fold w in Hd1, Hfin, Hu;
+      destruct (rounds_is_run mst m_n m_awaited (fun _ i => i) m_handle true true m_order m_pre_exit (fun _ => false) m_finish (fun s => s)
+                  (fun s => drop_all_children (m_n s)) m_final mmut (S r) w) as [ops1 E1];
+      destruct (rounds_is_run mst m_n m_awaited (fun _ i => i) m_handle true true m_order m_pre_exit (fun _ => false) m_finish (fun s => s)
+                  (fun s => drop_all_children (m_n s)) m_final mmut r w) as [opsr Er];
+      set (C := items_total (scripts _ w) + nsome (results (tr _ w))); set (N0 := nsome (results (tr _ w)));
+      (assert (HR0 : Rm C N0 B (cs _ w) (scripts _ w) (results (tr _ w))) by (split; [apply merge_Inv_run|split; [reflexivity|split; [apply Nat.le_refl|exact HB]]]));
+      pose proof (Rm_run C N0 B ops1 w HR0) as HR1; rewrite <- E1 in HR1; pose proof (Rm_run C N0 B opsr w HR0) as HRr; rewrite <- Er in HRr;
+      destruct HR1 as (_ & Hc1 & _ & Hb1); destruct HRr as (_ & _ & Hlor & _);
+      rewrite Hu, !results_app, !nsome_app in Hc1; cbn [results flat_map] in Hc1;
+      (assert (Hreach : mrounds (S r) w = mrun w0 (ops ++ ops1)) by (rewrite E1; unfold w; apply mrun_app));
+      (destruct (out_eq_none o) as [->|Hno];
+        [exists (S r); split; [nia|]; cbv zeta; split; [exact Hd1|]; split; [rewrite Hu; apply in_or_app; right; apply in_or_app; right; left; reflexivity|exists (ops ++ ops1); exact Hreach]|]);
+      (assert (Hns : nsome [o] = 1) by (destruct o; try reflexivity; exfalso; apply Hno; reflexivity));
+      (assert (Hlt : items_total (scripts _ (mrounds (S r) w)) < items_total (scripts _ w)) by (unfold C, N0 in *; rewrite Hns in Hc1; lia)).
+    - lia.
+    - (* not finished: the result of this round was not final *)
+      assert (Hf1 : finished _ (mrounds (S r) w) = false).
+      { rewrite rounds_S.
+        assert (Ewr : mrounds r w = mrun w0 (ops ++ opsr)) by (rewrite Er; unfold w; apply mrun_app).
+        assert (Hcases : finished _ (round mst m_n m_awaited (fun _ i => i) m_handle true true m_order m_pre_exit (fun _ => false) m_finish (fun s => s)
+                                      (fun s => drop_all_children (m_n s)) m_final mmut (mrounds r w)) = false \/
+                         exists u' o', m_final o' = true /\ tr _ (round mst m_n m_awaited (fun _ i => i) m_handle true true m_order m_pre_exit (fun _ => false) m_finish (fun s => s)
+                                      (fun s => drop_all_children (m_n s)) m_final mmut (mrounds r w)) = tr _ (mrounds r w) ++ u' ++ [EEndR o']).
+        { eapply (round_finished_cases mst m_n m_awaited (fun _ i => i) m_handle true true m_order m_pre_exit (fun _ => false) m_finish (fun s => s)
+                   (fun s => drop_all_children (m_n s)) m_final m_Q) with (occ := fun _ _ => true) (nmem := m_n) (okans := fun a => a <> APanic) (US := TSm);
+            try first [exact M1|exact M2|exact M3|exact M4|exact M5|exact M6|exact M7|exact M8|exact M9|exact M10|exact M11|exact M12|exact M13|exact M14
+                      |exact (fun _ => eq_refl)|exact (fun _ _ _ => eq_refl)|exact (fun _ H => H)|exact (fun w _ _ _ H => H)|exact (fun _ _ _ _ _ => eq_refl)
+                      |exact (fun _ _ _ _ _ _ _ _ H => H)|exact (fun _ _ _ H _ => H)|exact (fun s i a _ _ _ => conj (M1 s i a) (fun _ _ _ => conj eq_refl eq_refl))
+                      |exact (fun s is s1 _ E => conj (M10 s is s1 E) (fun _ _ _ => conj eq_refl eq_refl))|exact (fun s _ => conj eq_refl (fun _ _ _ => conj eq_refl eq_refl))
+                      |exact m_abort_panic|exact APend_not_panic|exact (fun s i a s' e _ _ _ => USm_cont s i a s' e)].
+          - rewrite Ewr. apply merge_Inv_run.
+          - rewrite Ewr. apply merge_LiveI_run.
+          - apply Hfin. lia.
+          - destruct (dropped _ (mrounds r w)) eqn:Edr; [|reflexivity]. exfalso.
+            pose proof (round_dropped mst m_n m_awaited (fun _ i => i) m_handle true true m_order m_pre_exit (fun _ => false) m_finish (fun s => s)
+                          (fun s => drop_all_children (m_n s)) m_final mmut (mrounds r w) Edr) as X. rewrite <- rounds_S in X. congruence.
+          - rewrite <- rounds_S. exact Hd1. }
+        destruct Hcases as [X|(u' & o' & Ho' & Hu')].
+        - exact X.
+        - exfalso. rewrite <- rounds_S, Hu in Hu'. apply app_inv_head in Hu'.
+          assert (E' : last (u ++ [EEndR o]) EO = last (u' ++ [EEndR o']) EO) by (rewrite Hu'; reflexivity). rewrite !last_last in E'. inversion E'; subst o'.
+          apply Hno. destruct o; discriminate. }
+      destruct (IH (ops ++ ops1)) as (R & HRb & Hd2 & Hin2 & ops' & Ho').
+      + rewrite <- Hreach. exact Hf1.
+      + rewrite <- Hreach. exact Hd1.
+      + rewrite <- Hreach. lia.
+      + rewrite <- Hreach. exact Hb1.
+      + rewrite <- Hreach in *. exists (S r + R). split; [nia|]. cbv zeta.
+        rewrite (rounds_add mst m_n m_awaited (fun _ i => i) m_handle true true m_order m_pre_exit (fun _ => false) m_finish (fun s => s)
+                  (fun s => drop_all_children (m_n s)) m_final mmut (S r) R w).
+        split; [exact Hd2|]. split; [exact Hin2|]. exists ops'. exact Ho'.
   Qed.
 End MergeLive.
 Print Assumptions merge_next_result.
